@@ -31,6 +31,12 @@ CHECKS["C14"] = dict(
     text="Seeded search over schedules of 1-16 real threads calling all public entry points (including both C wrappers) on shared and distinct inputs; every result must be byte-identical to a sequential reference, to a repeat in the same process in the opposite order, and to a fresh process. A clean batch is evidence, not proof: interleavings are sampled, and only at hook points.",
     note="Trusted: the baton scheduler (one holder at a time), the hook points as the only preemption points (a race window without a hook point is only reachable by the Miri arm), exit codes as error identity.")
 
+CHECKS["C04"] = dict(
+    engine="simstore-upgrade", category="exploration", design_ref="DESIGN.md 5.4",
+    technique="deterministic simulation of a restart with a new binary: the frozen reference build writes the durable state (corrections, containers), the working tree reads it (container layer through a fragmenting reader); version constants exported by a guarded hook separate announced from silent format changes; seeded search over the object population",
+    text="History per object: PUT by the reference build, upgrade, GET by the current build; every object the reference accepts and reconstructs itself must be reproduced byte-exactly by the current build without panic or process death, as long as both declare the same format versions. The history has one shape; what is searched from the seed is the object population (compressor x level x strategy x window x memLevel x plaintext shape x wrapper), with reach probes over the reference estimator's choices. A clean batch is evidence, not proof.",
+    note="Trusted: /verif/reference is a faithful frozen copy of the pinned release (src/*.rs verbatim, lib.rs without the #[no_mangle] wrappers) plus recorded fixes. A changed version constant turns the layer's judgement into an announcement. Rollback reads are not judged.")
+
 NOT_APPLICABLE = {
     "C01": "pure function of the input file (for all byte strings F): no schedule, I/O outcome, resource limit or crash point in the statement; truncating/flipping foreign input is input generation, not fault injection. Incidental coverage only (fault-free round trip is a precondition of every C11-C13 workload and rejections are counted).",
     "C02": "pure function of the input stream and the verify flag; no seam for the environment to vary. Incidental: the unperturbed runs of C08 and the current-build reads of C04 execute the identity.",
@@ -43,7 +49,6 @@ NOT_APPLICABLE = {
 }
 
 PENDING = {
-    "C04": "applicable (upgrade simulation, DESIGN.md 5.4) but the check is not built yet in this revision; not claimed until it runs",
     "C08": "applicable (buggify at the estimator seam, DESIGN.md 5.5) but the check is not built yet in this revision; not claimed until it runs",
 }
 
